@@ -135,6 +135,7 @@ class Run:
         self.seq = itertools.count()
         self.model = Model()
         self.pos = 0
+        self.executed = 0
         self.violations = []
         self.stats = dict(idle_truth_checks=0, alternation_events=0, acks_judged=0, positive_acks=0, negative_acks=0)
         self.policy = set(REJECTED)
@@ -183,6 +184,7 @@ class Run:
                                                history=[(e[1], e[2]) for e in hist][-6:], extra=extra)))
 
     def do(self, a):
+        self.executed += 1  # script order is execution order (a hopped action is the last one of its instant)
         ann = self.prot.announcer
         k = a["kind"]
         if k == "msg":
@@ -199,7 +201,9 @@ class Run:
     def on_idle(self):
         T = self.h.loop.time()
         m = self.model
-        while self.pos < len(self.script) and self.script[self.pos][0] <= T + RES:
+        # the model follows what has actually been executed (an action scheduled exactly one resolution after T may or may
+        # not have run in the iteration that just ended - comparing instants cannot tell)
+        while self.pos < min(len(self.script), self.executed):
             t, rank, a = self.script[self.pos]
             m.expire(t, inclusive=False)
             m.apply(t, a)
